@@ -285,3 +285,97 @@ def build_scheme_replay(wd, units, with_ref, ref_units=None):
     exe = os.path.join(wd, "replay_main")
     run(["g++", "-rdynamic"] + objs + ["-o", exe, "-lgsl", "-lgslcblas", "-lm", "-ldl"])
     return exe
+
+
+# ---------------------------------------------------------------------------
+# E4 irx: real sources + ministl -> LLVM IR -> path-wise symbolic interpreter
+# ---------------------------------------------------------------------------
+IRX = os.path.join(VERIF, "engines/irx")
+MINISTL = os.path.join(VERIF, "engines/ir2c/ministl")
+E3H = os.path.join(VERIF, "harness/e3")
+
+
+def irx_exe():
+    exe = os.path.join(IRX, "irx")
+    src = [os.path.join(IRX, f) for f in ("irx.cpp", "irx_core.h", "irx_interp.inc")]
+    if not os.path.exists(exe) or any(os.path.getmtime(s) > os.path.getmtime(exe) for s in src):
+        cfg = subprocess.check_output(["llvm-config-14", "--cxxflags"]).decode().split()
+        ld = subprocess.check_output(["llvm-config-14", "--ldflags"]).decode().split()
+        run([CXX] + cfg + ["-fexceptions", "-O2", "-I" + IRX, os.path.join(IRX, "irx.cpp"), "-o", exe] + ld + ["-lLLVM-14", "-lz3"])
+    return exe
+
+
+def ir_flags(wd, defines=()):
+    inc = os.path.join(wd, "geninc")
+    if not os.path.isdir(inc):
+        gen_include_dir(wd)
+    return ["-std=c++11", "-O1", "-fno-vectorize", "-fno-slp-vectorize", "-fno-unroll-loops", "-ffp-contract=off", "-nostdinc++", "-Wno-everything",
+            "-I" + MINISTL, "-I" + REPO, "-I" + inc, "-I" + E3H, "-I" + os.path.join(REPO, "extensions/bxdecay0_g4"), "-S", "-emit-llvm"] + ["-D" + d for d in defines]
+
+
+def ir_units(wd, units, unit_defines=None, srcdir=None):
+    """compile repo units (names relative to bxdecay0/, or absolute paths) to .ll with ministl; returns list of .ll"""
+    unit_defines = unit_defines or {}
+    out = os.path.join(wd, "ll")
+    os.makedirs(out, exist_ok=True)
+    jobs = []
+    for u in units:
+        src = u if os.path.isabs(u) else os.path.join(srcdir or SRC, u + ".cc")
+        name = os.path.splitext(os.path.basename(src))[0]
+        ll = os.path.join(out, name + ".ll")
+        jobs.append((src, ll, ir_flags(wd, unit_defines.get(name, ()))))
+
+    def one(j):
+        run([CXX] + j[2] + [j[0], "-o", j[1]])
+        return j[1]
+    return parallel(jobs, one)
+
+
+def irx_link(wd, name, lls, harness_cpp, defines=(), c_sources=()):
+    """compile harness (+ ministl runtime, + optional C sources) and link everything into <wd>/<name>.ll"""
+    out = os.path.join(wd, "ll")
+    os.makedirs(out, exist_ok=True)
+    h = os.path.join(out, name + "_h.ll")
+    run([CXX] + ir_flags(wd, defines) + [harness_cpp, "-o", h])
+    rt = os.path.join(out, "ministl_rt.ll")
+    if not os.path.exists(rt):
+        run([CXX] + ir_flags(wd) + [os.path.join(VERIF, "engines/ir2c/ministl_rt.cpp"), "-o", rt])
+    extra = []
+    for c in c_sources:
+        cl = os.path.join(out, os.path.splitext(os.path.basename(c))[0] + "_c.ll")
+        if not os.path.exists(cl):
+            run([CC, "-O1", "-fno-vectorize", "-fno-slp-vectorize", "-fno-unroll-loops", "-ffp-contract=off", "-Wno-everything", "-I" + F2X, "-I" + os.path.dirname(c), "-S", "-emit-llvm", c, "-o", cl])
+        extra.append(cl)
+    mod = os.path.join(wd, name + ".ll")
+    run(["llvm-link-14", "-S", h] + list(lls) + [rt] + extra + ["-o", mod])
+    return mod
+
+
+def irx_run(mods, K=64, timeout=1800, extra=(), workers=None):
+    """run irx on several modules in parallel; returns run_jsonl-style results"""
+    exe = irx_exe()
+    cmds = [[exe, m, "--entry", "harness", "--K", str(K)] + list(extra) for m in mods]
+    return run_jsonl(cmds, timeout=timeout, workers=workers)
+
+
+def irx_aggregate(res):
+    agg = {"runs": 0, "paths": 0, "queries": 0, "forks": 0, "insts": 0, "assert_checked": 0, "assert_failed": 0, "mem_errors": 0, "ub_found": 0, "uncaught": 0,
+           "cut_bound": 0, "cut_budget": 0, "unknown": 0, "uninit_reads": 0, "solver_s": 0.0, "not_exhausted": 0, "incomplete": [], "fatal": []}
+    for r in res:
+        s = [x for x in r["records"] if x.get("type") == "summary"]
+        f = [x for x in r["records"] if x.get("type") == "fatal"]
+        if f:
+            agg["fatal"].append({"module": os.path.basename(r["cmd"][1]), "what": f[0]["what"][:300]})
+        if not s:
+            if not f:
+                agg["incomplete"].append({"module": os.path.basename(r["cmd"][1]), "rc": r["rc"], "timed_out": r["timed_out"], "stderr": r["stderr"][-300:]})
+            continue
+        s = s[0]
+        agg["runs"] += 1
+        for k in ("paths", "queries", "forks", "insts", "assert_checked", "assert_failed", "mem_errors", "ub_found", "uncaught", "cut_bound", "cut_budget", "unknown", "uninit_reads"):
+            agg[k] += s[k]
+        agg["solver_s"] += s["solver_s"]
+        if not s["exhausted"]:
+            agg["not_exhausted"] += 1
+    agg["solver_s"] = round(agg["solver_s"], 2)
+    return agg
